@@ -173,9 +173,23 @@ Definition loads (k v : Z) (e : lev ccop) : bool :=
   | _, _ => false
   end.
 
+(* a Take of k that returned v without loading *)
+Definition took (k v : Z) (e : lev ccop) : bool :=
+  match lop e, lobs e with
+  | CC (CTake k' _), OTake (Some v') false => (k' =? k) && (v' =? v)
+  | CJoin k' _, OTake (Some v') false => (k' =? k) && (v' =? v)
+  | _, _ => false
+  end.
+
+(* the flight whose result a joined Take was handed belongs to an overlapping Take that loaded
+   v, or to an overlapping Take whose double check found v stored by a loading Take that
+   overlapped IT *)
 Definition joins_ok (evs : list (lev ccop)) : bool :=
   forallb (fun e => match lop e with
-                    | CJoin k v => existsb (fun a => loads k v a && overlaps a e) evs
+                    | CJoin k v =>
+                      existsb (fun a => overlaps a e &&
+                                        (loads k v a ||
+                                         (took k v a && existsb (fun c => loads k v c && overlaps c a) evs))) evs
                     | _ => true
                     end) evs.
 
